@@ -2,6 +2,7 @@ import LoguruModel.Retention.Spec
 import LoguruModel.Retention.Dispatch
 import LoguruModel.Retention.Collect
 import LoguruModel.Retention.Created
+import LoguruModel.Retention.Managed
 import LoguruModel.Driver
 open Py Py.Glob Retention Retention.Spec
 
@@ -118,6 +119,13 @@ def step (line : String) : String :=
     match decTok p, decTok n with
     | some p, some n =>
       match familyB p n with
+      | some b => b2s b
+      | none => "err"
+    | _, _ => "bad-op"
+  | ["mgd", p, n] =>
+    match decTok p, decTok n with
+    | some p, some n =>
+      match managedB p n with
       | some b => b2s b
       | none => "err"
     | _, _ => "bad-op"
